@@ -61,6 +61,9 @@ pub struct Stages {
     pub g: [usize; 6],        // parsed checked core focused shrunk linearized
     pub text: [String; 5],    // checked core focused shrunk linearized
     pub code: [String; 3],    // x86 a64 rv: number or `panic`
+    pub x86_nc: String,       // x86 instructions that are not COMMENT pseudo-instructions (what the Coq model emits)
+    pub a64_nc: String,       // the same for AArch64
+    pub rv_nc: String,        // and RISC-V
 }
 
 /// `sexp::dbg(v)`, given up (None) as soon as the Debug text exceeds `cap` bytes: a stage that explodes
@@ -101,23 +104,38 @@ pub fn run_stages(src: &str) -> Result<Stages, (String, String)> {
     let t_shrunk = dbg_capped(&shrunk, cap).ok_or_else(|| over("shrunk"))?;
     let lin = guard("linearized", || { let mut p = shrunk; p.linearize(); p })?;
     let t_lin = dbg_capped(&lin, cap).ok_or_else(|| over("linearized"))?;
-    let num = |r: Result<usize, (String, String)>| match r { Ok(n) => n.to_string(), Err(_) => "panic".to_string() };
     let p2 = lin.clone();
-    let x86 = num(guard("x86", move || axcut2x86_64::into_routine::into_x86_64_routine(compile::<axcut2x86_64::Backend, _, _, _>(p2)).instructions.len()));
+    let x86_both = guard("x86", move || {
+        let r = axcut2x86_64::into_routine::into_x86_64_routine(compile::<axcut2x86_64::Backend, _, _, _>(p2));
+        let nc = r.instructions.iter().filter(|c| !matches!(c, axcut2x86_64::code::Code::COMMENT(_))).count();
+        (r.instructions.len(), nc)
+    });
+    let (x86, x86_nc) = match x86_both { Ok((a, b)) => (a.to_string(), b.to_string()), Err(_) => ("panic".to_string(), "panic".to_string()) };
     let p2 = lin.clone();
-    let a64 = num(guard("a64", move || axcut2aarch64::into_routine::into_aarch64_routine(compile::<axcut2aarch64::Backend, _, _, _>(p2)).instructions.len()));
+    let a64_both = guard("a64", move || {
+        let r = axcut2aarch64::into_routine::into_aarch64_routine(compile::<axcut2aarch64::Backend, _, _, _>(p2));
+        let nc = r.instructions.iter().filter(|c| !matches!(c, axcut2aarch64::code::Code::COMMENT(_))).count();
+        (r.instructions.len(), nc)
+    });
+    let (a64, a64_nc) = match a64_both { Ok((a, b)) => (a.to_string(), b.to_string()), Err(_) => ("panic".to_string(), "panic".to_string()) };
     let p2 = lin;
-    let rv = num(guard("rv", move || compile::<axcut2rv64::Backend, _, _, _>(p2).instructions.len()));
+    let rv_both = guard("rv", move || {
+        let r = compile::<axcut2rv64::Backend, _, _, _>(p2);
+        let nc = r.instructions.iter().filter(|c| !matches!(c, axcut2rv64::code::Code::COMMENT(_))).count();
+        (r.instructions.len(), nc)
+    });
+    let (rv, rv_nc) = match rv_both { Ok((a, b)) => (a.to_string(), b.to_string()), Err(_) => ("panic".to_string(), "panic".to_string()) };
     Ok(Stages {
         g: [g_parsed, measure(&t_checked), measure(&t_core), measure(&t_focused), measure(&t_shrunk), measure(&t_lin)],
         text: [t_checked, t_core, t_focused, t_shrunk, t_lin],
         code: [x86, a64, rv],
+        x86_nc, a64_nc, rv_nc,
     })
 }
 
 fn prog_case(j: usize, label: &str, k: usize, st: &Stages, out: &mut dyn Write) {
-    writeln!(out, "(case {j} (prog {label} {k} ({} {} {} {} {} {}) ({} {} {})) ({} {} {} {} {}))",
-        st.g[0], st.g[1], st.g[2], st.g[3], st.g[4], st.g[5], st.code[0], st.code[1], st.code[2],
+    writeln!(out, "(case {j} (prog {label} {k} ({} {} {} {} {} {}) ({} {} {} {} {} {})) ({} {} {} {} {}))",
+        st.g[0], st.g[1], st.g[2], st.g[3], st.g[4], st.g[5], st.code[0], st.code[1], st.code[2], st.x86_nc, st.a64_nc, st.rv_nc,
         st.text[0], st.text[1], st.text[2], st.text[3], st.text[4]).unwrap();
 }
 
